@@ -1064,7 +1064,25 @@ func (g *Gen) Poison() Fragment {
 						Text: fmt.Sprintf("extend type %s @go(type: \"Alt%d\") {\n}\ntype %s {\n}\n", o.Name, g.T.Draw(9), g.fresh("T"))}
 				}
 			}
-			switch g.T.Draw(7) {
+			switch g.T.Draw(8) {
+			case 7:
+				// an extension of a scalar that is not declared in SDL (built in, or
+				// implemented in Go and handed to AddTypes), followed by an extension
+				// that fails: whichever of the two the library objects to, nothing of
+				// the document may stay
+				names := []string{"Int", "Float", "Boolean", "ID", "Time", "Int64", "Float64"}
+				if gs := g.pickExisting("goscalar"); gs != nil {
+					names = append(names, gs.Name, gs.Name)
+				}
+				sc := names[g.T.Draw(len(names))]
+				d := g.fresh("zs")
+				use := "@" + d
+				text := fmt.Sprintf("directive @%s(v: Int = 1) on SCALAR\n", d)
+				if len(g.St.Dirs) > 0 && g.T.Bool(1, 2) {
+					use, text = "@"+g.St.Dirs[g.T.Draw(len(g.St.Dirs))], ""
+				}
+				return Fragment{Kind: "poison:failed_extend:scalar_not_declared_in_sdl_then_unknown_target", Mutates: true,
+					Text: fmt.Sprintf("%sextend scalar %s %s\nextend type %s {\n  a: Int\n}\n", text, sc, use, g.fresh("Nope"))}
 			case 0:
 				return Fragment{Kind: "poison:failed_extend:unknown_target", Text: "extend type " + g.fresh("Nope") + " {\n  a: Int\n}\n"}
 			case 1:
